@@ -58,6 +58,23 @@ func size(r *hx.Rand, isInt bool) float64 {
 	}
 }
 
+type rc struct{ x, y, w, h float64 }
+
+// pickRect chooses one of the stored rectangles from the PRNG alone (ids are 0..next-1; the first stored id at or after a random
+// pivot, wrapping around).
+func pickRect(r *hx.Rand, rects map[int]rc, next int) rc {
+	if len(rects) == 0 || next == 0 {
+		return rc{}
+	}
+	p := r.Intn(next)
+	for k := 0; k < next; k++ {
+		if e, ok := rects[(p+k)%next]; ok {
+			return e
+		}
+	}
+	return rc{}
+}
+
 func gen(r *hx.Rand, n int) []string {
 	var out []string
 	for c := 0; c < n; c++ {
@@ -73,7 +90,6 @@ func gen(r *hx.Rand, n int) []string {
 			nops = r.Range(60, 140) // enough to pass the default threshold
 		}
 		var ops []string
-		type rc struct{ x, y, w, h float64 }
 		var live []int
 		rects := map[int]rc{}
 		next := 0
@@ -128,10 +144,7 @@ func gen(r *hx.Rand, n int) []string {
 			case v < 13:
 				var q rc
 				if len(rects) > 0 && r.Chance(1, 5) { // identical or abutting to an existing rectangle
-					for _, e := range rects {
-						q = e
-						break
-					}
+					q = pickRect(r, rects, next) // never range over the map: its order would leak into the case
 					if r.Bool() {
 						q.x += q.w
 					}
@@ -171,7 +184,10 @@ func gen(r *hx.Rand, n int) []string {
 			pts = append(pts, hx.RatF(coord(r, isInt, span))+":"+hx.RatF(coord(r, isInt, span)))
 			prs = append(prs, hx.RatF(coord(r, isInt, span))+":"+hx.RatF(coord(r, isInt, span))+":"+hx.RatF(size(r, isInt)*2)+":"+hx.RatF(size(r, isInt)*2))
 		}
-		for _, e := range rects { // probes on the corner of a stored rectangle
+		for _, e := range []rc{pickRect(r, rects, next)} { // probes on the corner of a stored rectangle
+			if len(rects) == 0 {
+				break
+			}
 			pts[0] = hx.RatF(e.x) + ":" + hx.RatF(e.y)
 			pts[1] = hx.RatF(e.x+e.w) + ":" + hx.RatF(e.y+e.h)
 			prs[0] = hx.RatF(e.x) + ":" + hx.RatF(e.y) + ":" + hx.RatF(e.w) + ":" + hx.RatF(e.h)
